@@ -400,6 +400,11 @@ int aws_base64_decode(const struct aws_byte_cursor *AWS_RESTRICT to_decode, stru
             return aws_raise_error(AWS_ERROR_INVALID_BASE64_STR);
         }
 
+        /* padding may only be followed by padding ("xx=x" is not base64) */
+        if (value3 == BASE64_SENTINEL_VALUE && value4 != BASE64_SENTINEL_VALUE) {
+            return aws_raise_error(AWS_ERROR_INVALID_BASE64_STR);
+        }
+
         output->buffer[buffer_index++] = (uint8_t)((value1 << 2) | ((value2 >> 4) & 0x03));
 
         if (value3 != BASE64_SENTINEL_VALUE) {
